@@ -72,6 +72,9 @@ def execute(mod, scn):
     c = ctx()
     c.seam.reset_totals()
     boot.reset_state("score_analysis")  # every run starts from the library's state right after import
+    import random as _random
+
+    _random.seed(int(scn.get("np_seed", 0)))  # the stdlib generator is scenario-determined as well
     signal.signal(signal.SIGALRM, _alarm)
     signal.alarm(RUN_TIMEOUT_S)
     try:
